@@ -1,6 +1,7 @@
 package world
 
 import (
+	coreexecutor "github.com/evstack/ev-node/core/execution"
 	"bytes"
 	"context"
 	"encoding/binary"
@@ -191,10 +192,21 @@ func (n *Node) Obs(tag string) {
 			top = h
 		}
 	}
+	// replay of the stored chain into a fresh instance of the execution layer (when the node runs on a real one)
+	var replay coreexecutor.Executor
+	var replayRoot []byte
+	replayOK := false
+	if n.Exec.Fresh != nil {
+		replay = n.Exec.Fresh()
+		if r, _, e := replay.InitChain(ctx, w.Genesis.GenesisDAStartTime, w.Genesis.InitialHeight, w.Genesis.ChainID); e == nil {
+			replayRoot, replayOK = r, true
+		}
+	}
 	for h := w.Genesis.InitialHeight; h <= top; h++ {
 		sh, d, e := st.GetBlockData(ctx, h)
 		if e != nil {
 			missing = append(missing, int(h))
+			replayOK = false
 			continue
 		}
 		var ssig []byte
@@ -202,6 +214,20 @@ func (n *Node) Obs(tag string) {
 			ssig = *sg
 		}
 		br := n.BlockRec(h, sh, d, ssig)
+		// the header's state root is the root a fresh execution layer reports after replaying all earlier blocks
+		br["replay"] = "none"
+		if replay != nil && replayOK {
+			if bytes.Equal(sh.AppHash, replayRoot) {
+				br["replay"] = "ok"
+			} else {
+				br["replay"] = "bad"
+			}
+			if r, _, e := replay.ExecuteTxs(ctx, txsBytes(d.Txs), h, sh.Time(), replayRoot); e == nil {
+				replayRoot = r
+			} else {
+				replayOK = false
+			}
+		}
 		// hash index consistency
 		ih, _, e3 := st.GetBlockByHash(ctx, sh.Hash())
 		br["idx"] = e3 == nil && ih != nil && ih.Height() == h
